@@ -15,6 +15,9 @@ pub enum LatWant {
     CyclePanic,
     /// a cycle mixes functions with and without recovery: panic or value, but must terminate
     Either,
+    /// a reachable cycle contains functions without cycle handling next to fixpoint functions
+    /// (and nothing else is uncertain): a cycle panic, or else the least fixpoint
+    EitherValue(u32),
     /// fixpoint iteration cannot converge
     Diverge,
 }
@@ -167,6 +170,7 @@ impl<'a> Lat<'a> {
         let kind = |i: u8| self.prog.nodes[i as usize].kind;
         let mut pinned: Vec<Option<u32>> = vec![None; n];
         let mut either = false;
+        let mut either_plain = false;
         for c in &cycles {
             if !c.iter().any(|x| reach.contains(x)) {
                 continue;
@@ -176,7 +180,7 @@ impl<'a> Lat<'a> {
                 return (LatWant::CyclePanic, vec![]);
             }
             if plain > 0 {
-                either = true;
+                either_plain = true;
             }
             let falls = c.iter().filter(|x| kind(**x) == Kind::Fall).count();
             if falls == c.len() {
@@ -221,9 +225,15 @@ impl<'a> Lat<'a> {
                 }
             }
             if next == vals {
+                if either_plain {
+                    return (LatWant::EitherValue(vals[from as usize]), vals);
+                }
                 return (LatWant::Value(vals[from as usize]), vals);
             }
             vals = next;
+        }
+        if either_plain {
+            return (LatWant::Either, vec![]);
         }
         (LatWant::Diverge, vec![])
     }
